@@ -67,6 +67,9 @@ type RespScript struct {
 	// Continue100 (opt-in, C03): a request carrying "Expect: 100-continue" is answered with the interim
 	// "100 Continue" before the backend reads the request body, as ordinary origin servers do.
 	Continue100 bool `json:"continue100,omitempty"`
+	// RefuseBody: the backend answers from the request head alone, without reading the request body
+	// (an origin that refuses an upload: 401 / 413 / 417), and closes the connection afterwards.
+	RefuseBody bool `json:"refuse_body,omitempty"`
 }
 
 // SeenRequest is what a raw backend recorded for one request.
@@ -270,6 +273,10 @@ func (b *RawBackend) handle(c net.Conn, br *bufio.Reader, req *http.Request) (ke
 	}
 	if script != nil && script.Continue100 && strings.EqualFold(strings.TrimSpace(req.Header.Get("Expect")), "100-continue") {
 		_, _ = c.Write([]byte("HTTP/1.1 100 Continue\r\n\r\n"))
+	}
+	if script != nil && script.RefuseBody {
+		_ = b.play(c, req, script, ex)
+		return false
 	}
 	// read the request body completely (the proxy streams it)
 	body, err := io.ReadAll(req.Body)
